@@ -46,6 +46,12 @@ func (d GenDoc) JSON() json.RawMessage {
 // into the real (fresh) chain together with the bank balances of the scratch
 // chain. Seeds of this kind are "hand-written valid genesis documents".
 func GenesisSeed(name string, build []*explore.Action, patch func(d GenDoc)) explore.Seed {
+	return GenesisSeedWithData(name, build, patch, nil)
+}
+
+// GenesisSeedWithData is GenesisSeed with a patch of the DATA module's genesis document as well (which must
+// pass that module's own ValidateGenesis).
+func GenesisSeedWithData(name string, build []*explore.Action, patch func(d GenDoc), patchData func(d GenDoc)) explore.Seed {
 	return explore.Seed{Name: name, Build: func(c *chain.Chain) sdk.Context {
 		sc := chain.New(chain.Options{})
 		sctx := sc.BaseContext(chain.T0, 1)
@@ -61,6 +67,20 @@ func GenesisSeed(name string, build []*explore.Action, patch func(d GenDoc)) exp
 		dataGen, err := sc.DataSrv.ExportGenesis(sctx, sc.Cdc)
 		if err != nil {
 			panic(err)
+		}
+		if patchData != nil {
+			var dd GenDoc
+			if err := json.Unmarshal(dataGen, &dd); err != nil {
+				panic(err)
+			}
+			if dd == nil {
+				dd = GenDoc{}
+			}
+			patchData(dd)
+			dataGen = dd.JSON()
+			if err := c.DataMod.ValidateGenesis(c.Cdc, nil, dataGen); err != nil {
+				panic(fmt.Sprintf("genesis seed %s: data genesis is not valid: %v", name, err))
+			}
 		}
 		// carry bank balances over (basket token supply must match basket balances)
 		bal := map[string]sdk.Coins{}
